@@ -117,7 +117,10 @@ def run(chk, tier):
     def az_ok(x, lp):
         # AzimuthSegment after its zone loop; before that loop it was AzimuthSegment::new(this iteration's header, loop index)
         if inner is None:
-            return x[0] == "adt" and fld(x, "header") == okval(az) and fld(x, "azimuth_segment") == lp["I"] and fld(x, "range_zones") == okval(zs)
+            from nx import listalg
+            rzv = fld(x, "range_zones") if x[0] in ("adt", "upd") else None
+            zones_ok = rzv is not None and (rzv == okval(zs) or listalg.seq(rzv) == [("atom", okval(zs))])      # stored, or extended into the empty vector
+            return zones_ok and fld(x, "header") == okval(az) and fld(x, "azimuth_segment") == lp["I"]
         if x[0] != "after_loop":
             return False
         pre = x[3]
